@@ -25,6 +25,7 @@ SHAPES = {
     "S": ("q(L)", ["s"]),
     "TS": ("c(L,c(q(L),u))", ["i32", "s"]),    # a smart pointer to a plain type inside a tuple
     "PU": ("p(q(L),L)", ["i32", "i32"]),       # ... inside a pair
+    "W": ("c(L,c(L,u))", ["i32", "w"]),        # a wide string (char32_t) as a member
     "G": ("u", []),
 }
 
@@ -35,6 +36,9 @@ GRID = {
     "u64": [(str(v), v) for v in (0, 1, 9223372036854775809, 18446744073709551615)],
     "s": [(hexs(s), STR_RANK[s]) for s in STRS],
     "d": DBLS,
+    # wide strings of at most one character, written as its code point ("e": empty); several of them are
+    # congruent modulo 256 (U+0041, U+0141, U+0241, U+10041)
+    "w": [("e", 0)] + [(str(cp), cp + 1) for cp in (0x41, 0x42, 0x141, 0x241, 0x10041)],
 }
 SMALL = {k: v[:3] if k != "d" else v for k, v in GRID.items()}
 SMALL["s"] = [(hexs(s), STR_RANK[s]) for s in ("", "a", "b")]
@@ -125,6 +129,9 @@ def gen_c16(tier, rng):
                 elif k == "d":
                     t, r = rng.choice(DBLS)
                     toks.append(t); ranks.append(r)
+                elif k == "w":
+                    cp = rng.choice([0x41, 0x141, 0x41 + 256 * rng.below(4000), rng.below(0x10ffff)])
+                    toks.append(str(cp)); ranks.append(cp + 1)
                 else:
                     lo, hi = {"i8": (-128, 127), "i32": (-2**31, 2**31 - 1), "i64": (-2**63, 2**63 - 1), "u64": (0, 2**64 - 1)}[k]
                     v = rng.choice([lo, hi, 0, 1, -1 if lo < 0 else 2, lo + rng.below(hi - lo + 1)])
@@ -158,9 +165,9 @@ def model_input(c, a):
 
 C16 = Prop(
     "C16", "hash", ["NitroVerif.Props.C16"], gen_c16,
-    rule="14 value shapes (mix-in structs with 1-4 members over int8/int32/int64/uint64/string/double incl. signed "
+    rule="15 value shapes (mix-in structs with 1-4 members over int8/int32/int64/uint64/string/double incl. signed "
          "zeros, a struct nested in a struct, tuple<int,pair<int,string>>, pair<tuple<int,int>,int>, variant<int,string> "
-         "in both alternatives, unique_ptr<struct>, shared_ptr<string>, tuple<int,shared_ptr<string>>, pair<unique_ptr<int>,int>, empty tuple); exhaustive: all ordered pairs over a "
+         "in both alternatives, unique_ptr<struct>, shared_ptr<string>, tuple<int,shared_ptr<string>>, pair<unique_ptr<int>,int>, tuple<int,u32string>, empty tuple); exhaustive: all ordered pairs over a "
          "grid of 3-6 values per member (sampled to 60 values per shape in the quick tier for 3+ members); unordered_set/"
          "map insert-then-lookup over grids; seeded random values incl. one-leaf differences. The harness prints each "
          "leaf's std::hash, so the model predicts the exact 64-bit combined hash. Non-trivial: at least two leaves. "
@@ -186,6 +193,25 @@ C16 = Prop(
 C16.model_input = model_input
 
 
+def _collision_clause(cases, verdicts, feats):
+    """'up to rare collisions', per shape: of the pairs of unequal values of one shape at most a quarter may have equal
+    hashes (shape C holds the deliberately solved collisions as well: they are a small share of its grid)"""
+    per = {}
+    for i, (c, f) in enumerate(zip(cases, feats)):
+        t = c.split("\t")
+        if len(t) > 6 and t[1] == "cmp" and "different" in f:
+            per.setdefault(t[5], [[], []])
+            per[t[5]][0].append(i)
+            if "collision" in f:
+                per[t[5]][1].append(i)
+    bad = {}
+    for name, (diff, col) in per.items():
+        if len(diff) >= 8 and 4 * len(col) > len(diff):
+            for i in col:
+                bad[i] = "bad:unequal-values-hash-equal-systematically(%d-of-%d-unequal-pairs-of-this-shape-collide)" % (len(col), len(diff))
+    return bad
+
+
 def _order_clause(cases, verdicts, feats):
     """'The hash depends on component order (up to rare collisions)': of the pairs of a run whose leaf hashes are a
     transposition of each other at most a quarter may collide (the boost-style mixer does collide on a few structured
@@ -198,4 +224,4 @@ def _order_clause(cases, verdicts, feats):
     return {}
 
 
-C16.aggregate = _order_clause
+C16.aggregate = lambda cases, verdicts, feats: {**_collision_clause(cases, verdicts, feats), **_order_clause(cases, verdicts, feats)}
